@@ -5,6 +5,9 @@ fn main() {
     let args = Args::parse();
     let code = match args.prop.as_str() {
         "C01" | "C02" | "C03" | "C06" | "C07" | "C08" => e1::run(&args),
+        "C04" => e1_c04::c04(&args),
+        "C36" => e2_index::c36(&args),
+        "C26" => e5_c26::c26(&args),
         "C31" => e5::c31(&args),
         "C28" => e5::c28(&args),
         "C11" => e2_store::c11(&args),
